@@ -177,7 +177,19 @@ def _variants(build, ops, out):
     """Every operation (a) on objects left in some state by earlier, unrelated use (c09.STATES) and (b) under the strict numeric-error state."""
     from c09 import _in_states
 
+    from c09 import _same, _snapshot
+
     out["states"] = _in_states(build, ops)
+    # the operations leave their input as it was: snapshot (values, sampling points, coefficients, basis) before and after
+    untouched = {}
+    for nm, op in ops.items():
+        def one(op=op):
+            fd = build()
+            before = _snapshot(fd)
+            op(fd)
+            return bool(_same(_snapshot(fd), before))
+        untouched[nm] = _call(one)
+    out["untouched"] = untouched
     strict = {}
     for nm, op in ops.items():
         fd = _call(build)
@@ -204,6 +216,10 @@ def _variant_violations(impl, bad, cls, strict_cls=None):
     if "states" not in impl:
         return
     _state_violations(impl["states"], bad, lambda nm: cls + "." + nm.split("(")[0])
+    for nm, ok in (impl.get("untouched") or {}).items():
+        if ok is False:
+            bad("data_untouched", f"{nm} changed its input: values / sampling points / coefficients / basis differ from the snapshot taken before the call",
+                cls + "." + nm.split("(")[0], ["operation-mutates-data"])
     for nm, b in impl["states"]["base"].items():
         op = nm.split("(")[0]
         if (strict_cls or cls, op) in STRICT_EXCLUDED or not _all_finite(b):
@@ -454,6 +470,26 @@ def gen_cases(rng: Rng, tier):
             comps = [dict(type="dense1", t=[rs(x) for x in _grid(rng, m)], X=_S(_dynrange(rng, N, m)), ck="dynrange", int=False, layout="C"),
                      _dense_comp(rng, N)]
             yield dict(kind="multi", mix="dd", comps=comps, **opts, ck="dynrange", uw_form="float-array", uw=["0", "4"])
+    # structured, in every run: SIZE THRESHOLDS of the union grid of irregular data (curves with their own sampling points):
+    # 300, 511, 512, 513, 700, 1400 union points, few curves, explicit smoothing options
+    for S in (300, 511, 512, 513, 700, 1400):
+        opts = _opts(rng)
+        opts["integ"] = "trapz"
+        N = 4
+        U = rng.grid(S, lo=0, scale=1, uniform=False)
+        own = [set() for _ in range(N)]
+        for j in range(S):
+            own[rng.randrange(N)].add(j)
+            if rng.random() < 0.25:
+                own[rng.randrange(N)].add(j)
+        a, b_, c_ = rng.dyadic(-2, 2, 3), rng.dyadic(-2, 2, 3), rng.dyadic(1, 3, 2)
+        obs = []
+        for i in range(N):
+            idx = sorted(own[i] | {0, S - 1})
+            obs.append(dict(t=[rs(U[j]) for j in idx],
+                            y=[rs(Fraction(round((a + (i + 1) * b_ * U[j] + c_ * U[j] * U[j] * (i - 1) + rng.dyadic(-1, 1, 3) / 4) * 64), 64)) for j in idx]))
+        yield dict(kind="irreg", type="irreg", enc="points", obs=obs, smooth=dict(method="LP", bw=rs(Fraction(1, 4))), ck="rand",
+                   vorder=None, sub=False, big_union=True, **opts)
     # structured, in every run: irregular data whose VALUES dictionary is filled in another key order than the ARGVALS dictionary
     for enc, vo in (("points", "reversed"), ("nan", "rotated"), ("points", "rotated")):
         opts = _opts(rng)
@@ -681,6 +717,7 @@ def _impl_irreg(case, out, comp=None):
     ckw, rkw = _smooth_kw(comp["smooth"])
     opts = dict(use_argvals_stand=case["stand"], method_integration=case["integ"])
     w = float(F(case["w"]))
+    big = bool(case.get("big_union"))  # union grid of hundreds of points: only the operations that stay cheap (no covariance smoothing)
 
     def build():
         fd = _build(comp)
@@ -711,7 +748,8 @@ def _impl_irreg(case, out, comp=None):
             sds.append(np.sqrt(var[np.isin(U, pts)]).tolist())
         return dict(v=_vals(cen), sd=sds)
 
-    out["std_parts"] = _call(std_parts)
+    if not big:
+        out["std_parts"] = _call(std_parts)
 
     def center():
         fd = build()
@@ -748,8 +786,9 @@ def _impl_irreg(case, out, comp=None):
             return dict(v=_vals(r), hits=a.hits)
         return dict(v=_vals(fd.standardize(**rkw)))
 
-    out["standardize"] = _call(lambda: standardize(False))
-    out["standardize_adv"] = _call(lambda: standardize(True))
+    if not big:
+        out["standardize"] = _call(lambda: standardize(False))
+        out["standardize_adv"] = _call(lambda: standardize(True))
 
     def rescale():
         ro = dict(use_argvals_stand=case["stand"], method_integration=case["integ"], **rkw)
@@ -772,7 +811,7 @@ def _impl_irreg(case, out, comp=None):
         r, wt = build().rescale(weights=ws, **ro)
         return dict(v=_vals(r), w=float(wt), ws=ws)
 
-    out["rescale_transfer"] = _call(rescale_transfer) if not case.get("sub") else None
+    out["rescale_transfer"] = _call(rescale_transfer) if not (case.get("sub") or big) else None
 
     def history():
         # ONE object: mean / center / standardize with OTHER smoothing options first, then the options of the case
@@ -790,6 +829,8 @@ def _impl_irreg(case, out, comp=None):
         o["standardize"] = _vals(fd.standardize(**rkw))
         return o
 
+    if big:
+        return
     out["history"] = _call(history)
     ro_ = dict(use_argvals_stand=case["stand"], method_integration=case["integ"], **rkw)
     _variants(build, {
@@ -1447,9 +1488,11 @@ def _oracle_irreg(case, impl, bad, comp=None):
                 bad("normalize_unit", f"irregular observation {i} ({enc}) has norm {na} after normalising", _entry(case, "normalize"), sub)
                 break
     for key, cause in (("standardize", "natural-heap"), ("standardize_adv", "nan-initialised-buffer")):
-        s = impl[key]
+        s = impl.get(key)
+        if s is None:
+            continue  # not run on the large-union cases (covariance smoothing over union x union)
         if _err(s):
-            if key == "standardize" or not _err(impl["standardize"]):
+            if key == "standardize" or not _err(impl.get("standardize")):
                 bad("runs", f"standardize raised {s['error']}: {s.get('msg')} ({cause})", _entry(case, "standardize"), sub)
             continue
         for i, (v, x) in enumerate(zip(s["v"], vals)):
@@ -1469,10 +1512,10 @@ def _oracle_irreg(case, impl, bad, comp=None):
                     break
         if not _err(r) and not (abs(h["w"] - r["w"]) <= 1e-12 * abs(r["w"]) or (math.isnan(h["w"]) and math.isnan(r["w"]))):
             bad("stale_state", f"rescale() weight on a used irregular object {h['w']} vs fresh {r['w']}", _entry(case, "rescale"), ["history"] + sub)
-        s0 = impl["standardize"]
-        if not _err(s0) and not _flat_close(h["standardize"], s0["v"], 1e-12):
+        s0 = impl.get("standardize")
+        if s0 is not None and not _err(s0) and not _flat_close(h["standardize"], s0["v"], 1e-12):
             bad("stale_state", "standardize() on a used irregular object differs from a fresh object", _entry(case, "standardize"), ["history"] + sub)
-    elif h is not None and not any(_err(impl[k]) for k in ("center", "standardize", "rescale", "normalize")):
+    elif h is not None and not any(_err(impl.get(k)) for k in ("center", "standardize", "rescale", "normalize")):
         bad("runs", f"sequence of operations on one irregular object raised {h['error']}: {h.get('msg')}", _entry(case, "center"), ["history"] + sub)
     if _err(r):
         bad("runs", f"rescale raised {r['error']}: {r.get('msg')}", _entry(case, "rescale"), sub)
@@ -1674,6 +1717,8 @@ def classify(case, impl):
             tags.append("irregular:subselection")
         if case.get("vorder"):
             tags.append("irregular:values-dict-in-another-key-order")
+        if case.get("big_union"):
+            tags.append("irregular:union-grid-size:" + str(len({t for o in case["obs"] for t in o["t"]})))
         tags += ["irregular:model:" + part for part in _irreg_parts(case, impl)]
     if case["kind"] == "multi":
         tags.append("multi:" + case["mix"])
